@@ -43,15 +43,15 @@ def gen_cases(tier, seed):
     forced = [(1, 2), (2, 1), (2, 2), (1, 3), (3, 1), (1, 4), (4, 1), (2, 3), (3, 2), (4, 2), (2, 4)]
     if tier == "thorough":
         forced += [(1, 6), (6, 1), (3, 3), (5, 1), (1, 5), (3, 4), (4, 3), (2, 6), (6, 2)]
-    n = 12 if tier == "quick" else 150
+    n = 12 if tier == "quick" else 500
     for k in range(n):
         npts = shapes[k % len(shapes)]
         nprocs = forced[k % len(forced)]
         cases.append({"kind": "stages", "npts": npts, "nprocs": list(nprocs), "iota": [0.0, 0.8][k % 2], "sched": rng.randrange(1 << 30), "seed": rng.randrange(1 << 30), "cost": 4000})
-    for k in range(6 if tier == "quick" else 60):
+    for k in range(6 if tier == "quick" else 240):
         cases.append({"kind": "init", "npts": shapes[k % len(shapes)], "P": rng.choice([2, 3, 4, 6] if tier == "quick" else [2, 3, 4, 5, 6, 8, 12]),
                       "layout": ["flux_surface", "v_parallel", "poloidal"][k % 3], "seed": rng.randrange(1 << 30), "cost": 300})
-    for k in range(4 if tier == "quick" else 36):
+    for k in range(4 if tier == "quick" else 72):
         cases.append({"kind": "driver", "npts": [8, 8, 8, 8], "P": [2, 4, 3, 6][k % 4] if tier == "quick" else rng.choice([2, 3, 4, 6, 8]), "steps": 1 + k % 2, "iota": [0.0, 0.8][(k // 2) % 2],
                       "seed": rng.randrange(1 << 30), "cost": 6000})
     return cases
